@@ -1072,7 +1072,12 @@ fn judge_slot_doc(g: &Gen, ch: &[usize]) -> Outcome {
             Outcome::pass(format!("S/{}/{}", if dc.is_some() { "undocumented-accepted" } else { "accepted" }, first_class))
         }
         _ => {
-            let (base, detail) = slot_failure(g, ch).expect("harness bug: failure vanished on re-run");
+            let (base, detail) = match slot_failure(g, ch) {
+                Some(x) => x,
+                // the same text was just judged differently by the same process: okane's reading depends on what it
+                // read before. Reported as a violation of its own; the framework replays it in a fresh process.
+                None => return Outcome::violation("verdict-changed-on-immediate-re-run-in-the-same-process", "judging the same text twice in a row gave a failure, then no failure"),
+            };
             let cs = culprits(g, ch, &base);
             let names: Vec<String> = cs.iter().map(|c| g.dev_name(c)).collect();
             let sig = if names.is_empty() { format!("{}/base-document", base) } else { format!("{}/{}", base, names.join("+")) };
@@ -1133,13 +1138,7 @@ fn run(ctx: &mut Ctx) {
     ctx.fact("S_nondefault_alternatives_not_clearly_documented", dc_alts);
     ctx.fact("S_core_nondefault_alternatives_for_d3", core);
     ctx.fact("S_base_document_entries", g.entries.len() as u64);
-    {
-        // the base document must be a fixpoint-free sanity anchor: it has to parse, otherwise nothing below means anything
-        let base = g.render(&vec![0; ns]);
-        if parse_all(&base).is_err() {
-            panic!("harness bug: the base document does not parse: {:?}", base);
-        }
-    }
+    // (the base document itself is case d = 0 below: if okane stops reading it, that is a verdict, not a harness bug)
     let mut docs = [0u64; 4];
     let mut must_accept = 0u64;
     let mut dc_accept = 0u64;
@@ -1297,6 +1296,58 @@ fn run(ctx: &mut Ctx) {
             }
         }
         ctx.fact("W_texts", n_w);
+    }
+    // Family H: history independence. Reading a text must not depend on what the same process read before
+    // (parser state that leaks from one entry or one call to the next shows up only after many entries). Each text is
+    // parsed and formatted 1 500 times in a row, and as ONE file holding 1 500 copies: every result must equal the first.
+    {
+        let texts: Vec<String> = vec![
+            g.render(&vec![0; ns]),
+            "2024/01/01 p\n  A  (1 USD + 2 USD)\n  B\n".to_string(),
+            "2024/01/01 p\n  A  (1.20 + 2 * 3.1 USD)\n  B  (-(1 USD) - 2 USD * 3)\n".to_string(),
+            "2024/01/01 p\n  A  1 USD @ (1 EUR * 2) = ((3 USD))\n  B\n".to_string(),
+            "2024/01/01 * (c) p ; note\n  ; k:: (1 + 2)\n  A  (((1 USD)))\n  B\n".to_string(),
+            "account A\n  alias a\n\ncommodity USD\n  format 1,000.00 USD\n".to_string(),
+        ];
+        ctx.fact("H_texts", texts.len() as u64);
+        for text in &texts {
+            for whole_file in [false, true] {
+                if !ctx.next_is_mine() {
+                    ctx.skip_cases(1);
+                    continue;
+                }
+                ctx.case(
+                    || format!("history independence ({}):\n{}", if whole_file { "one file with 1500 copies" } else { "1500 calls" }, text),
+                    || {
+                        let first = match format_text(text) {
+                            Ok(f) => f,
+                            Err(e) => return Outcome::violation("documented-text-rejected/history-family", e),
+                        };
+                        if whole_file {
+                            let big = format!("{}\n", text).repeat(1500);
+                            return match format_text(&big) {
+                                Ok(out) => {
+                                    if out == first.repeat(1500) {
+                                        Outcome::pass("H/one-file-1500-copies")
+                                    } else {
+                                        Outcome::violation("reading-depends-on-earlier-entries/formatted-output-differs", "the formatted output of 1500 copies is not 1500 times the formatted output of one copy")
+                                    }
+                                }
+                                Err(e) => Outcome::violation("reading-depends-on-earlier-entries/rejected", format!("one copy is read, 1500 copies in one file are rejected: {}", e)),
+                            };
+                        }
+                        for i in 0..1500 {
+                            match format_text(text) {
+                                Ok(f) if f == first => {}
+                                Ok(_) => return Outcome::violation("reading-depends-on-earlier-calls/formatted-output-differs", format!("call {} formats the same text differently", i + 2)),
+                                Err(e) => return Outcome::violation("reading-depends-on-earlier-calls/rejected", format!("call {} rejects the text that call 1 read: {}", i + 2, e)),
+                            }
+                        }
+                        Outcome::pass("H/1500-calls")
+                    },
+                );
+            }
+        }
     }
     ctx.fact("R_tokens", nt);
     ctx.fact("R_texts", raw_total);
